@@ -256,8 +256,8 @@ def toBigInt (sig : Bytes) : Nat × Nat :=
   if sig.length < 32 then (0, 0) else (beNat (sig.take 32), beNat (sig.drop 32))
 
 /-- `decodePubKey` on the marshalled G2 point `0x01 ‖ x.i ‖ x.r ‖ y.i ‖ y.r` (129 bytes):
-`pubKeyMar[32*i+1 : 32*i+33]` for `i = 0..3`. `none` = slice bounds panic (the 1-byte
-encoding of the point at infinity, or anything shorter than 129 bytes). -/
+`pubKeyMar[32*i+1 : 32*i+33]` for `i = 0..3`. `none` = the error the code returns for anything shorter than
+129 bytes (the 1-byte encoding of the point at infinity) since /repo ae5b22f — before it, a slice bounds panic. -/
 def decodePubKey (mar : Bytes) : Option (List Nat) :=
   if mar.length < 129 then none
   else some ((List.range 4).map (fun i => beNat ((mar.drop (32 * i + 1)).take 32)))
